@@ -10,6 +10,7 @@ import numpy as np
 from .. import gens
 from ..harness import watchdog, WatchdogTimeout, digest
 from ..refmodels import ref_next_imf, guard_margin, guard_margin_single
+from ..monitors import thread_probe
 
 MANIFEST = {
     'text': 'Held on every comparison executed: for seeded order-one signals x all stop rules / step sizes / interpolants / pad widths the real get_next_imf, sift and mask_sift are run on x and on the transformed input; results must be bit-identical for c = +-2^k (|k|<=8; mask_sift c>0, ratio amplitudes) and agree to 1e-10 relative for arbitrary real c and for time reversal, unless a stop/extremum decision of the original run lies within a measured guard band (1e-6), in which case the comparison is excluded and counted. Sampling, not proof.',
@@ -244,6 +245,30 @@ def check_mask(ctx, case):
                                   % (c, mk['mask_amp_mode'], c), dict(case, c=c))
                 elif not np.array_equal(np.asarray(t[1], float), np.asarray(base[1], float)):
                     ctx.violation('mask-freqs-scale', 'mask frequencies change under positive rescaling of the input', dict(case, c=c))
+            if len(x) >= 40 and case.get('reuse_buffer', True):
+                # the caller's working buffer: sifted, then repaired in place away from its ends (artefact removal), then sifted
+                # again - the comparison is between the repaired recording and its rescaled copy
+                def run_buf(v, t):
+                    try:
+                        return S.mask_sift(v, sift_thresh=t, imf_opts=dict(io), envelope_opts=dict(eo), extrema_opts=dict(xo), ret_mask_freq=True, **mk)
+                    except EMDSiftCovergeError:
+                        return 'raise'
+                buf = x.copy()
+                run_buf(buf, 1e-8)
+                buf[10:-10] = (.5 * buf[10:-10] + .8 * np.roll(buf, 3)[10:-10])
+                keep = buf.copy()
+                b2 = run_buf(buf, 1e-8)
+                c = float(case['pow2'][0])
+                t2 = run(c * buf, c * 1e-8)
+                ctx.count('mask_comparisons_after_in_place_repair')
+                if not np.array_equal(buf, keep):
+                    ctx.violation('mask-input-modified', 'mask_sift modified the recording passed to it', case)
+                elif isinstance(b2, str) != isinstance(t2, str) or (not isinstance(b2, str) and (t2[0].shape != b2[0].shape or not np.array_equal(t2[0], c * b2[0])
+                                                                                                or not np.array_equal(np.asarray(t2[1], float), np.asarray(b2[1], float)))):
+                    ctx.violation('mask-pow2-scale:after-in-place-repair', 'after the same buffer was sifted, repaired in place (interior samples only) and '
+                                  'sifted again, mask_sift(%g*x) is not %g*mask_sift(x) for the repaired recording (mask frequencies %s vs %s)'
+                                  % (c, c, np.round(np.asarray(t2[1], float), 4).tolist()[:3] if not isinstance(t2, str) else t2,
+                                     np.round(np.asarray(b2[1], float), 4).tolist()[:3] if not isinstance(b2, str) else b2), case)
             if not np.array_equal(np.asarray(mk['mask_amp']), amp0):
                 ctx.violation('mask-amp-modified', 'mask_sift modified the mask_amp array passed to it (re-using it changes the next result)', case)
     except WatchdogTimeout:
@@ -253,8 +278,26 @@ def check_mask(ctx, case):
 CHECK = {'gni': check_gni, 'sift': check_sift, 'mask': check_mask}
 
 
+def thread_cases(seed):
+    """A recording and its rescaled copy (and a second pair) decomposed at the same time in different threads."""
+    from emd import sift as S
+    r = np.random.default_rng(seed)
+    n = int(gens.pick(r, [200, 500, 1000]))
+    t = np.arange(n)
+    x1 = np.sin(2 * np.pi * t / 13.7) + .5 * np.sin(2 * np.pi * t / 59.) + .2 * r.standard_normal(n)
+    x2 = np.cumsum(r.standard_normal(n)) * .3
+    io = gens.pick(r, [{}, {'stop_method': 'rilling'}, {'stop_method': 'fixed', 'max_iters': 4}])
+    sigs = [x1, -4.0 * x1, x2, 0.25 * x2]
+    if r.random() < .5:
+        return [(lambda v: (lambda: S.sift(v.copy(), max_imfs=4, imf_opts=dict(io))))(v) for v in sigs], {'seed': int(seed), 'n': n, 'routine': 'sift'}
+    return [(lambda v: (lambda: S.get_next_imf(v.copy()[:, None], **io)))(v) for v in sigs], {'seed': int(seed), 'n': n, 'routine': 'get_next_imf'}
+
+
 def run_shard(ctx):
     rng = ctx.rng
+    if ctx.shard % 2 == 1:
+        calls, tcase = thread_cases(int(rng.integers(1 << 30)))
+        thread_probe(ctx, '%s (%d samples)' % (tcase['routine'], tcase['n']), calls, 25, tcase)
     n = NCASES[ctx.tier] // ctx.nshards
     if ctx.shard % 8 in (3, 5):
         # size-dependent code paths: very long records (more than 2**16 samples), lengths not aligned to any power of two
@@ -301,6 +344,12 @@ def finalize(agg, tier):
 
 
 def replay(ctx, case):
+    if case.get('kind') == 'threads':
+        for _ in range(5):
+            calls, tcase = thread_cases(case['seed'])
+            if not thread_probe(ctx, '%s (%d samples)' % (tcase['routine'], tcase['n']), calls, 25, tcase):
+                break
+        return
     if case.get('family') == 'noise-very-long':
         case = dict(case, x=np.random.default_rng(case['seed']).standard_normal(case['n']))
         return check_gni(ctx, case, wd=600)
